@@ -255,16 +255,22 @@ func Val(v reflect.Value) string {
 		}
 		return Val(v.Elem())
 	case reflect.Map:
-		items := make([]string, 0, v.Len())
+		type ent struct{ k, s string }
+		items := make([]ent, 0, v.Len())
 		it := v.MapRange()
 		for it.Next() {
-			items = append(items, "("+Val(it.Key())+" "+Val(it.Value())+")")
+			items = append(items, ent{keyOrder(it.Key()), "(" + Val(it.Key()) + " " + Val(it.Value()) + ")"})
 		}
-		sort.Strings(items)
+		// encoder order: bytewise by the canonical CBOR encoding of the key (computed here, not by go-fdo)
+		sort.SliceStable(items, func(i, j int) bool { return items[i].k < items[j].k })
 		if len(items) == 0 {
 			return "(m)"
 		}
-		return "(m " + strings.Join(items, " ") + ")"
+		strs := make([]string, len(items))
+		for i := range items {
+			strs[i] = items[i].s
+		}
+		return "(m " + strings.Join(strs, " ") + ")"
 	case reflect.Struct:
 		var sb strings.Builder
 		sb.WriteString("(l")
@@ -283,4 +289,56 @@ func Val(v reflect.Value) string {
 		return sb.String()
 	}
 	return "?" + t.String()
+}
+
+func cborHead(mt byte, n uint64) []byte {
+	switch {
+	case n < 24:
+		return []byte{mt<<5 | byte(n)}
+	case n < 1<<8:
+		return []byte{mt<<5 | 24, byte(n)}
+	case n < 1<<16:
+		return []byte{mt<<5 | 25, byte(n >> 8), byte(n)}
+	case n < 1<<32:
+		return []byte{mt<<5 | 26, byte(n >> 24), byte(n >> 16), byte(n >> 8), byte(n)}
+	}
+	out := []byte{mt<<5 | 27}
+	for i := 7; i >= 0; i-- {
+		out = append(out, byte(n>>(8*uint(i))))
+	}
+	return out
+}
+
+// keyOrder is the canonical CBOR encoding of a map key of one of the key kinds the library supports.
+func keyOrder(k reflect.Value) string {
+	for k.Kind() == reflect.Interface || k.Kind() == reflect.Pointer {
+		if k.IsNil() {
+			return "\xf6"
+		}
+		k = k.Elem()
+	}
+	if k.Type() == tLabel {
+		l := k.Interface().(cose.IntOrStr)
+		if l.Int64 != 0 {
+			return keyOrder(reflect.ValueOf(l.Int64))
+		}
+		return keyOrder(reflect.ValueOf(l.Str))
+	}
+	switch k.Kind() {
+	case reflect.Uint8, reflect.Uint16, reflect.Uint32, reflect.Uint64, reflect.Uint:
+		return string(cborHead(0, k.Uint()))
+	case reflect.Int8, reflect.Int16, reflect.Int32, reflect.Int64, reflect.Int:
+		if i := k.Int(); i < 0 {
+			return string(cborHead(1, uint64(-(i + 1))))
+		}
+		return string(cborHead(0, uint64(k.Int())))
+	case reflect.String:
+		return string(cborHead(3, uint64(len(k.String())))) + k.String()
+	case reflect.Bool:
+		if k.Bool() {
+			return "\xf5"
+		}
+		return "\xf4"
+	}
+	return Val(k)
 }
